@@ -89,7 +89,7 @@ class Ctx:
         if k not in self._paths:
             f = self.func(qualname)
             names = set(inline)
-            ev = Evaluator(self.cg, f, inline=(lambda g: g.qualname in names or g.name in names or (inline_helpers and is_helper(g))), **kw)
+            ev = Evaluator(self.cg, f, inline=(lambda g: g.qualname in names or g.name in names or (inline_helpers and (is_helper(g) or _local_function(g)))), **kw)
             self._paths[k] = ev.run()
         ps = self._paths[k]
         if qualname not in self._funcs_seen:
@@ -160,6 +160,16 @@ def anchor_names() -> Set[str]:
                         names.add(m)
         _ANCHOR_NAMES = names
     return _ANCHOR_NAMES
+
+
+def _local_function(g: FuncInfo) -> bool:
+    """a plain (non-generator) function defined inside another function: its body is part of the function
+    that defines it and is evaluated there, with the definer's variables in scope"""
+    if g.outer is None:
+        return False
+    if any(isinstance(x, (ast.Yield, ast.YieldFrom)) for x in ast.walk(g.node)):
+        return False
+    return sum(1 for _ in ast.walk(g.node)) <= 600
 
 
 def is_helper(g: FuncInfo) -> bool:
